@@ -320,6 +320,32 @@ pub fn selected_property() -> Option<&'static str> {
     SELECTED_PROPERTY.get().map(|s| s.as_str())
 }
 
+
+/// minimal glob: `*` matches any (possibly empty) substring; everything else is literal
+pub fn glob_match(pat: &str, s: &str) -> bool {
+    let parts: Vec<&str> = pat.split('*').collect();
+    if parts.len() == 1 {
+        return pat == s;
+    }
+    let mut pos = 0usize;
+    for (i, p) in parts.iter().enumerate() {
+        if i == 0 {
+            if !s.starts_with(p) {
+                return false;
+            }
+            pos = p.len();
+        } else if i == parts.len() - 1 {
+            return s.len() >= pos + p.len() && s[pos..].ends_with(p);
+        } else {
+            match s[pos..].find(p) {
+                Some(j) => pos += j + p.len(),
+                None => return false,
+            }
+        }
+    }
+    true
+}
+
 pub fn machinery_error(msg: &str) -> ! {
     eprintln!("SEQX-MACHINERY-ERROR: {msg}");
     std::process::exit(2);
@@ -392,7 +418,7 @@ impl<H: Harness> Run<'_, H> {
 
     fn violation(&mut self, ops: &[H::Op], f: Fail, mode: &str) {
         let sig = format!("{}|{}|{}", self.h.name(), f.tag, f.site);
-        if self.known.contains(&sig) {
+        if self.known.iter().any(|g| glob_match(g, &sig)) {
             // a known finding: keep one (the first) witness per signature, do not stop for it
             if !self.seen_known.insert(sig) {
                 self.out.known_repeats += 1;
